@@ -127,13 +127,13 @@ std::string accRecord() {
 
 void cbDeadlock(const char* table) {
   if (g_case)
-    g_case->fail("deadlock", table);
+    g_case->fail(g_case->phase.empty() ? "deadlock" : "deadlock@" + g_case->phase, table);
   _exit(3);
 }
 void cbLivelock(const char* table, int confirmed) {
   if (g_case) {
     if (confirmed)
-      g_case->fail("livelock", table);
+      g_case->fail(g_case->phase.empty() ? "livelock" : "livelock@" + g_case->phase, table);
     g_case->inconclusive(std::string("step-budget ") + table);
   }
   _exit(5);
@@ -318,6 +318,7 @@ int runMain(int argc, char** argv, const Prop* props, int nprops) {
       i = j + 1;
     }
   }
+  opts.known = known;
   bool replay = !replayKv.empty();
   if (cases < 0)
     cases = opts.thorough() ? prop->thoroughCases : prop->quickCases;
@@ -372,7 +373,7 @@ int runMain(int argc, char** argv, const Prop* props, int nprops) {
       prctl(PR_SET_PDEATHSIG, SIGKILL);
       g_outFd = pfd[1];
       g_slot = slot;
-      if (efd >= 0)
+      if (efd >= 0 && !getenv("VF_DEBUG"))
         dup2(efd, 2);
       struct rlimit rl = {0, 0};
       setrlimit(RLIMIT_CORE, &rl);
